@@ -314,6 +314,23 @@ def rule_PL4(ctx, tier):
                     rr.ok("verified receipt == recorded receipt, same tower id @%s" % shortfn(b.id))
                 else:
                     rr.fail("verify-mismatch:%s" % shortfn(b.id), "the receipt / tower id that was verified is not the one recorded", where=b.line_of(bb))
+    # what gets verified is OUR identity / OUR signature joined with the tower's claims: the receipt objects built from a
+    # reply take their first component from the caller's own argument, never from the reply (a receipt the tower signed for
+    # somebody else verifies fine under the tower id)
+    for fn, ctor, what in (("watchtower_plugin::net::http::register", "RegistrationReceipt::with_signature", "user id"),
+                           ("watchtower_plugin::net::http::send_appointment", "AppointmentReceipt::with_signature", "user signature")):
+        fam = [P.bodies[x] for x in P.family(fn)] if fn in P.bodies else []
+        found = False
+        for fb in fam:
+            for bb in sites_containing(fb, ctor):
+                found = True
+                a0 = arg_origin(ctx, fb, bb, 0)
+                if isinstance(a0, tuple) and a0 and a0[0] == "param" and a0[1] == fn:
+                    rr.ok("%s: receipt built on the caller's own %s" % (shortfn(fn), what), sample={"rule": "PL4", "in": fn, "first component": og.show(a0)})
+                else:
+                    rr.fail("receipt-identity-from-reply:%s" % shortfn(fn), "`%s` builds the receipt it hands back for verification on `%s` instead of the caller's own %s: a receipt the tower signed for another user / another request verifies under the tower id and is recorded" % (shortfn(fn), og.show(a0)[:80], what), where=fb.line_of(bb))
+        if not found:
+            rr.anchor_missing("%s in %s" % (ctor, fn))
     if n < 2:
         rr.fail("floor:add_update_tower-sites", "only %d add_update_tower call sites (2 confirmed)" % n)
     a = P.require(WT + "add_update_tower")
